@@ -21,7 +21,13 @@ import (
 var c12Sched func(c *core.Ctx, nontriv *atomic.Int64) bool
 
 func init() {
-	core.Register(core.Check{ID: "C12", Level: "exploration", Run: func(c *core.Ctx) { runC12(c); historyPass(c, "C12"); reentrancyPass(c, "C12") }})
+	core.Register(core.Check{ID: "C12", Level: "exploration", Run: func(c *core.Ctx) {
+		runC12(c)
+		standalonePass(c, "C12", "standalone-powv2")
+		historyPass(c, "C12")
+		reentrancyPass(c, "C12")
+		arch386Pass(c, "C12")
+	}})
 }
 
 var (
@@ -266,10 +272,10 @@ func runC12(c *core.Ctx) {
 	// ---- lane test ----
 	cfgs := c12Configs(th)
 	c.Set("configurations", int64(len(cfgs)))
-	laneIdx := []int{0, 1, 31, 62, 63}
+	laneIdx := []int{0, 1, powW/2 - 1, powW - 2, powW - 1}
 	if th {
 		laneIdx = nil
-		for j := 0; j < 64; j++ {
+		for j := 0; j < powW; j++ {
 			laneIdx = append(laneIdx, j)
 		}
 	}
@@ -332,7 +338,7 @@ func runC12(c *core.Ctx) {
 			c.Eval(1)
 			nontriv.Add(1)
 			anyStrict, anyQual := false, false
-			for j := 0; j < 64; j++ {
+			for j := 0; j < powW; j++ {
 				if cl[laneCls[j]].strict {
 					anyStrict = true
 				}
@@ -348,8 +354,8 @@ func runC12(c *core.Ctx) {
 			desc := func() map[string]interface{} {
 				m := map[string]interface{}{"msg_len": cfg.msgLen, "target": cfg.t, "sufficient_zeros": s}
 				dev := map[string]string{}
-				for j := 0; j < 64; j++ {
-					if laneCls[j] != laneCls[(j+1)%64] || laneCls[j] != laneCls[(j+63)%64] {
+				for j := 0; j < powW; j++ {
+					if laneCls[j] != laneCls[(j+1)%powW] || laneCls[j] != laneCls[(j+powW-1)%powW] {
 						dev[fmt.Sprint(j)] = cl[laneCls[j]].h.String()
 					}
 				}
@@ -361,14 +367,14 @@ func runC12(c *core.Ctx) {
 				c.Violate("C12/lane-test/"+what+"/panic", fmt.Sprintf("len %d target %d: checkStateTrits panicked: %v", cfg.msgLen, cfg.t, p), desc(), "", nil)
 				return
 			}
-			if got < 0 || got > 64 {
+			if got < 0 || got > powW {
 				c.Violate("C12/lane-test/"+what+"/range", fmt.Sprintf("returned %d", got), desc(), "", nil)
 				return
 			}
-			if got < 64 && !cl[laneCls[got]].qual {
+			if got < powW && !cl[laneCls[got]].qual {
 				c.Violate("C12/lane-test/"+what+"/unsound", fmt.Sprintf("len %d target %d: lane %d returned, but its difficulty %v is below length*target %v", cfg.msgLen, cfg.t, got, refDifficulty(cl[laneCls[got]].h), cfg.lx), desc(), "", nil)
 			}
-			if got == 64 && anyStrict {
+			if got == powW && anyStrict {
 				c.Violate("C12/lane-test/"+what+"/passed-over", fmt.Sprintf("len %d target %d: no lane returned although a lane has difficulty strictly above length*target %v", cfg.msgLen, cfg.t, cfg.lx), desc(), "", nil)
 			}
 		}
@@ -381,7 +387,7 @@ func runC12(c *core.Ctx) {
 			}
 			l0, h0 := c12Planes(&lanes)
 			judge(&l0, &h0, &lc, "background")
-			for j := 0; j < 64; j++ {
+			for j := 0; j < powW; j++ {
 				for a := range cl {
 					l, h := l0, h0
 					c12SetLane(&l, &h, j, &cl[a].tr)
